@@ -340,7 +340,8 @@ def roundTo53 (x : Nat) : Nat :=
 /-- `calculateBlankOutputs` computed exactly: `max(⌈log2 y⌉, 1)` for `y = float64(feeReserve)`, `0` for `0`.
     `⌈log2 y⌉` is `bitLen (y - 1)`.  What Go evaluates is `math.Ceil(math.Log2(y))` in float64; it equals this
     when `y` is a power of two (`math.Log2` is exact there) and whenever the float `log2 y` does not round
-    down to the integer below, which is guaranteed for `y < 2^48`; see `blankOutputsCertain`. -/
+    down to the integer below, which is guaranteed for `y < 2^48`; see `blankOutputsCertain`.  (The conversion
+    `float64(x)` itself is exact below `2^53` and rounds to nearest-even above: `roundTo53`.) -/
 def calculateBlankOutputs (feeReserve : UInt64) : Nat :=
   if feeReserve = 0 then 0
   else
@@ -350,9 +351,13 @@ def calculateBlankOutputs (feeReserve : UInt64) : Nat :=
 def isPow2 (n : Nat) : Bool := n != 0 && 2 ^ (bitLen 65 n - 1) == n
 
 /-- Inputs for which the float evaluation provably equals `calculateBlankOutputs`: `0`, exact powers of two
-    (after the conversion to float64), and everything below `2^48` (there `log2 y - ⌊log2 y⌋ ≥ 2^-48·1.44`
-    exceeds the float spacing `2^-47/2` … `2^-48` around the result, so it cannot round to an integer).
-    Outside, Go's result is `calculateBlankOutputs x` or one less (observed from `2^49 + 1` on). -/
+    (after the conversion to float64; `math.Log2` returns the exponent exactly via `Frexp`), and everything
+    below `2^48`.  For a non-power-of-two `y` with `⌊log2 y⌋ = k` the fractional part of `log2 y` is at least
+    `log2(1 + 2^-k) ≈ 1.44·2^-k`; Go computes `Log(frac)*(1/Ln2) + float64(exp)` and the last addition rounds
+    to the spacing of floats near `k`, `2^-47` for `32 ≤ k < 64` (finer below): for `k ≤ 47` the fractional
+    part is at least 1.44 spacings, so the sum stays above `k` and `Ceil` yields `k+1`.  Outside (`k ≥ 48`,
+    `y` slightly above `2^k`) the sum may round to `k` exactly: Go then returns `calculateBlankOutputs x - 1`
+    (observed from `2^49 + 1` on; the harness accepts exactly these two values there and counts them). -/
 def blankOutputsCertain (feeReserve : UInt64) : Bool :=
   feeReserve.toNat < 2 ^ 48 || isPow2 (roundTo53 feeReserve.toNat)
 
